@@ -149,12 +149,22 @@ def _as_shift(cur, nsym_for_axis):
         return (cur.name, _axes_tuple(kw.get("axes"))), cur.args[0]
     if isinstance(cur, Fn) and cur.name == "roll" and len(cur.args) == 3:
         ax = _axes_tuple(cur.args[2])
-        if ax in (None, "?") or len(ax) != 1:
-            return ("roll over flattened array or several axes", ax), cur.args[0]
-        kind = classify_roll(cur.args[1], nsym_for_axis(ax[0]))
-        if kind is None:
+        sh = cur.args[1]
+        shifts = list(sh) if isinstance(sh, (tuple, list)) and not (sh and sh[0] == "slice") else [sh]
+        if ax in (None, "?"):
+            return ("roll over the flattened array", ax), cur.args[0]
+        if len(shifts) == 1 and len(ax) > 1:
+            shifts = shifts * len(ax)               # one amount for every named axis
+        if len(shifts) != len(ax) or len(set(ax)) != len(ax):
             return None, None
-        return (kind, ax), cur.args[0]
+        # numpy.roll(x, (s1, s2, ...), (a1, a2, ...)) rolls axis a_i by s_i: a shift over several axes iff it is on each of them
+        kinds = [classify_roll(s_, nsym_for_axis(a_)) for s_, a_ in zip(shifts, ax)]
+        if any(k_ is None for k_ in kinds):
+            return None, None
+        if len(set(kinds)) == 1:
+            return (kinds[0], ax), cur.args[0]
+        bad = [k_ for k_ in kinds if k_ not in ("fftshift", "ifftshift")]
+        return ((bad[0] if bad else "fftshift along some axes and ifftshift along others (%s)" % ", ".join(kinds)), ax), cur.args[0]
     return None, None
 
 
